@@ -267,6 +267,9 @@ func ResolveRole(l *Lab, id CaseID, pl *MsgPlan) *Signer {
 }
 
 // build constructs the signed transaction of a grid point.
+// MemoOverride, when set, is the memo of every natively signed transaction Build makes.
+var MemoOverride string
+
 func Build(l *Lab, id CaseID, seq uint64) *Built {
 	b := &Built{ID: id}
 	base := BaseKind(id.Kind)
@@ -305,6 +308,9 @@ func Build(l *Lab, id CaseID, seq uint64) *Built {
 	}
 	b.Actual, b.Auth = signer, pl.Auth
 	o := TxOpts{Created: l.C.Height(), Time: BaseTime + seq, Fee: FeeDefault + seq%97, Net: l.W.NetworkID, Chain: l.W.ChainID}
+	if MemoOverride != "" && !isRLP {
+		o.Memo = MemoOverride // e.g. the memo "RLP" on a natively signed transaction (legal, and it selects other code paths)
+	}
 	if id.Mode == ModeClaim {
 		// the signer re-labels itself as the certificate's proposer (committee signature untouched)
 		pl.QC.ProposerKey = signer.Pub
